@@ -86,9 +86,11 @@ func cmdSweep(args []string) {
 	timeout := fs.Int("t", 5, "solver timeout (s)")
 	dump := fs.String("dump", "", "dump failing queries to dir")
 	verbose := fs.Bool("v", false, "verbose")
+	dead := fs.Bool("dead", false, "report CFG edges that are infeasible under the collected assumptions (vacuity diagnostic)")
 	kinds := fs.String("kinds", "", "only these obligation kinds (comma separated)")
 	fs.Parse(args)
 	w := mustWorld(*repo, *specs)
+	w.deadEdges = *dead
 	var re *regexp.Regexp
 	if *only != "" {
 		re = regexp.MustCompile(*only)
@@ -137,6 +139,9 @@ func cmdSweep(args []string) {
 				u++
 				lines = append(lines, fmt.Sprintf("         UNK  %s @%s:%d  %s [%s: %s]", o.Name, shortFile(o.Pos.Filename), o.Pos.Line, o.Expr, o.Status, o.Output))
 			}
+		}
+		for _, d := range r.DeadEdges {
+			lines = append(lines, "         DEAD "+d)
 		}
 		tot += p + f + u
 		pr += p
